@@ -90,11 +90,16 @@ def propose(fmt, spec, rng, T):
         if rule[0] == "custom":
             mods = custom_mods(rule[1], fmt, obj, pth, parts[pth], snap, rng)
         else:
-            mods = []
+            mods, exact = [], []
             for f, v in R.candidates(rule, snap, T, rng):
                 s2 = dict(snap); s2[f] = v
                 if not R.holds(rule, s2, T):
                     mods.append({"path": pth, "set": f, "value": v})
+                    # a value that breaks this rule and no other is the only way to see this very rule weakened
+                    if len(R.violated(cls, s2, T)) == 1:
+                        exact.append(mods[-1])
+            if exact and rng.random() < 0.7:
+                mods = exact
         if mods:
             return rng.choice(mods), "%s:%s" % (cls, json.dumps(rule)[:60])
     return None, None
@@ -103,8 +108,8 @@ def propose(fmt, spec, rng, T):
 class C06(Prop):
     id = "C06"
     lean_module = "ProductMD.Properties.C06"
-    quick_budget = 700
-    thorough_budget = 14000
+    quick_budget = 2800
+    thorough_budget = 42000
     rule = ("valid objects of the seven formats built through the public API from the library's own tables (every enumeration value round-robin) "
             "and one-field corruptions at a uniformly chosen written part with a value from the complement of a uniformly chosen catalogue rule; "
             "correspondence: real part.validate() vs generated rule lists (validate2), Python spec verdict vs Lean catalogue verdict per part, "
